@@ -121,13 +121,28 @@ func (g *DirectedTargetGraph) GetDependencies(target model.BuildNode) []model.Bu
 	return g.inEdges[target.GetLabel()]
 }
 
+// GetTargetDependencies returns the targets that node directly depends on.
+// Dependencies declared through aliases are resolved to the aliased targets.
 func (g *DirectedTargetGraph) GetTargetDependencies(node model.BuildNode) []*model.Target {
 	var targets []*model.Target
-	for _, dependency := range g.GetDependencies(node) {
-		if target, ok := dependency.(*model.Target); ok {
-			targets = append(targets, target)
+	seen := make(map[label.TargetLabel]bool)
+
+	var collect func(current model.BuildNode)
+	collect = func(current model.BuildNode) {
+		for _, dependency := range g.GetDependencies(current) {
+			if seen[dependency.GetLabel()] {
+				continue
+			}
+			seen[dependency.GetLabel()] = true
+			if target, ok := dependency.(*model.Target); ok {
+				targets = append(targets, target)
+			} else {
+				// aliases (and other non-target nodes) stand for their own dependencies
+				collect(dependency)
+			}
 		}
 	}
+	collect(node)
 	return targets
 }
 
